@@ -50,6 +50,10 @@ CHECKS = {
          "Every shipped definition obeys the grammar (types, flag widths, group sizes by earlier top-level integer, one trailing variable-by-size group, unique keyword-addressable names, no collision with UBXMessage attributes) and a nominal instance of every routed (message, mode) can be built and parsed with one attribute per named field.",
          "grammar as written in README; entries no API route can reach are grammar-checked only; known findings: FOO-BAR test fixture, parsebitfield=0 with flag-sized groups.",
          "DESIGN.md §5 C16"),
+ "C17": ("exhaustive enumeration of every SET/POLL definition x conforming payload shapes x generation routes on the real code; differential oracle true-mode parse vs SETPOLL parse",
+         "For every SET/POLL definition and every enumerated conforming payload the library can generate, parsing with SETPOLL returns the same mode, identity, attributes and bytes as parsing with the true mode (11 listed known findings: empty SET payloads, AID-ALM/AOP/EPH polls with members).",
+         "conformance decided by the reference layout; payload contents limited to two fills; counted groups up to 3 members, variable-by-size up to 16.",
+         "DESIGN.md §5 C17"),
 }
 NOT_YET = "check not built yet in this round (planned: see DESIGN.md §5)"
 
